@@ -1,0 +1,257 @@
+//go:build verif
+
+package encoding
+
+// ---------------------------------------------------------------------------------------
+// readers.go — the segmented reader (WireReader): abstract view and functional contracts
+//
+// Abstract view of a WireReader r: the LOGICAL BYTE SEQUENCE is the concatenation of the segments
+// r.wire[0], r.wire[1], ...; logical index x is byte j of segment s exactly when
+//
+//	x == specWireLen(r.wire, s) + j   and   0 <= j < len(r.wire[s])
+//
+// (specWireLen(w, s) = sum of the lengths of the first s segments). The representation keeps that
+// sum in r.accSz[s] (wfWR; tied to specWireLen by NewWireReader and lemmaWRAccIsWireLen), so the
+// contracts below name logical indices as r.accSz[s]+j. The logical position is
+// specWRPos(r) = r.accSz[r.seg] + r.pos, the logical length specWRLen(r) = r.accSz[len(r.wire)].
+// Several (seg, pos) pairs denote the same logical position when segments are empty or pos is at a
+// segment end; every contract is stated over the logical position only.
+// ---------------------------------------------------------------------------------------
+
+// specWireLen: total length of the first k segments of w.
+func specWireLen(w Wire, k int) int {
+	if k <= 0 {
+		return 0
+	}
+	return specWireLen(w, k-1) + len(w[k-1])
+}
+
+// A-MEM (DESIGN.md section 6): the buffers reachable from one value total less than 2^48 bytes, so prefix sums
+// of segment lengths are non-negative, monotone and do not wrap. Assumed, not proved (same status as
+// lemmaNameLenMono).
+//
+//@ func lemmaWireLenMono
+//@   trusted
+//@   requires 0 <= j && j <= i && i <= len(w)
+//@   ensures 0 <= specWireLen(w, j) && specWireLen(w, j) <= specWireLen(w, i) && specWireLen(w, i) <= 281474976710656
+func lemmaWireLenMono(w Wire, j, i int) {}
+
+// wfWR: the prefix-sum table matches the segments (step form), is monotone (no wrap-around), and
+// (seg, pos) is a valid cursor.
+func wfWR(r *WireReader) bool {
+	return r != nil && len(r.accSz) == len(r.wire)+1 && r.accSz[0] == 0 &&
+		forallIn(0, len(r.wire), func(i int) bool { return r.accSz[i+1] == r.accSz[i]+len(r.wire[i]) }) &&
+		forallIn(0, len(r.wire), func(i int) bool { return r.accSz[i] <= r.accSz[i+1] }) &&
+		forallIn(0, len(r.wire)+1, func(i int) bool { return 0 <= r.accSz[i] && r.accSz[i] <= r.accSz[len(r.wire)] }) &&
+		0 <= r.seg && r.seg <= len(r.wire) && 0 <= r.pos &&
+		implies(r.seg < len(r.wire), r.pos <= len(r.wire[r.seg])) &&
+		implies(r.seg == len(r.wire), r.pos == 0) &&
+		r.accSz[len(r.wire)] <= 281474976710656
+}
+
+// lemmaWRAccIsWireLen: in every well-formed reader the table entry accSz[k] IS the sum of the lengths of the first k
+// segments (induction on k over the step form of wfWR), so "r.accSz[s]+j" in the contracts below is the logical
+// index specWireLen(r.wire, s)+j of the abstract view.
+//
+//@ func lemmaWRAccIsWireLen
+//@   requires wfWR(r) && 0 <= k && k <= len(r.wire)
+//@   ensures r.accSz[k] == specWireLen(r.wire, k)
+//@   decreases k
+func lemmaWRAccIsWireLen(r *WireReader, k int) {
+	if k > 0 {
+		lemmaWRAccIsWireLen(r, k-1)
+	}
+}
+
+// specWRPos / specWRLen: logical position and logical length.
+func specWRPos(r *WireReader) int { return r.accSz[r.seg] + r.pos }
+func specWRLen(r *WireReader) int { return r.accSz[len(r.wire)] }
+
+func specWRMin(a, b int) int {
+	if a < b {
+		return a
+	}
+	return b
+}
+
+func specWRMax(a, b int) int {
+	if a > b {
+		return a
+	}
+	return b
+}
+
+// specWRByteAt: the logical byte at index x is v, and s is the segment that holds it.
+func specWRByteAt(r *WireReader, s int, x int, v byte) bool {
+	return 0 <= s && s < len(r.wire) && r.accSz[s] <= x && x < r.accSz[s+1] && r.wire[s][x-r.accSz[s]] == v
+}
+
+// specWRDone: b[x-p] is the logical byte x for every logical index x >= p that lies in one of the WHOLE segments
+// s0..s1-1 (logical indices accSz[s] .. accSz[s+1]-1).
+func specWRDone(r *WireReader, s0, s1 int, p int, b []byte) bool {
+	return forallIn(s0, s1, func(s int) bool {
+		return forallIn(0, len(b), func(x int) bool {
+			return implies(r.accSz[s] <= p+x && p+x < r.accSz[s+1], b[x] == r.wire[s][p+x-r.accSz[s]])
+		})
+	})
+}
+
+// specWRCur: the same for the part of segment s that lies in the logical interval [p, q).
+func specWRCur(r *WireReader, s int, p, q int, b []byte) bool {
+	return s >= len(r.wire) || forallIn(0, len(b), func(x int) bool {
+		return implies(r.accSz[s] <= p+x && p+x < q && p+x < r.accSz[s+1], b[x] == r.wire[s][p+x-r.accSz[s]])
+	})
+}
+
+// specWRBytes: b holds the logical bytes [p, q) as far as they lie in segments s0..s1. Callers add the coverage
+// facts accSz[s0] <= p and q <= accSz[s1+1] (both follow from wfWR of the pre- and post-state and from
+// specWRPos(post) == q), which make this a description of ALL of b[0:q-p]: every logical index in [p, q) is
+// accSz[s]+j for exactly one segment s in s0..s1 and one j < len(wire[s]).
+func specWRBytes(r *WireReader, s0, s1 int, p, q int, b []byte) bool {
+	return specWRDone(r, s0, s1, p, b) && specWRCur(r, s1, p, q, b)
+}
+
+//@ func (*WireReader).nextSeg
+//@   requires wfWR(r)
+//@   modifies r.seg, r.pos
+//@   ensures wfWR(r) && result == (r.seg < len(r.wire))
+//@   ensures specWRPos(r) == old(specWRPos(r)) && old(r.seg) <= r.seg
+//@   ensures result ==> r.pos < len(r.wire[r.seg])
+//@   ensures result == (old(specWRPos(r)) < specWRLen(r))
+//@   ensures forallIn(old(r.seg), r.seg, func(s int) bool { return r.accSz[s+1] == r.accSz[r.seg] })
+//@   loop 1 invariant wfWR(r) && specWRPos(r) == old(specWRPos(r)) && old(r.seg) <= r.seg
+//@   loop 1 invariant forallIn(old(r.seg), r.seg, func(s int) bool { return r.accSz[s+1] == r.accSz[r.seg] })
+//@   loop 1 decreases len(r.wire) - r.seg
+
+//@ func (*WireReader).ReadByte
+//@   requires wfWR(r)
+//@   modifies r.seg, r.pos
+//@   ensures wfWR(r)
+//@   ensures result1 == nil ==> specWRPos(r) == old(specWRPos(r))+1 && specWRByteAt(r, r.seg, old(specWRPos(r)), result0)
+//@   ensures result1 != nil ==> result1 == io.EOF && specWRPos(r) == old(specWRPos(r))
+//@   ensures (result1 == nil) == (old(specWRPos(r)) < specWRLen(r))
+
+//@ func (*WireReader).Read
+//@   requires wfWR(r)
+//@   modifies r.seg, r.pos, b[*]
+//@   ensures wfWR(r) && 0 <= result0 && result0 <= len(b)
+//@   ensures specWRPos(r) == old(specWRPos(r))+result0
+
+//@ func (*WireReader).UnreadByte
+//@   requires wfWR(r)
+//@   modifies r.seg, r.pos
+//@   ensures wfWR(r)
+//@   ensures result == nil ==> specWRPos(r) == old(specWRPos(r))-1
+//@   ensures result != nil ==> specWRPos(r) == old(specWRPos(r)) && old(specWRPos(r)) == 0
+//@   ensures old(specWRPos(r)) > 0 ==> result == nil
+//@   loop 1 invariant wfWR(r) && r.seg == old(r.seg) && r.pos == old(r.pos) && 0 <= seg && seg <= r.seg && 0 <= pos
+//@   loop 1 invariant (seg < len(r.wire) ==> pos <= len(r.wire[seg])) && (seg == len(r.wire) ==> pos == 0)
+//@   loop 1 invariant r.accSz[seg]+pos == old(specWRPos(r))
+
+//@ func (*WireReader).Pos
+//@   requires wfWR(r)
+//@   ensures result == specWRPos(r) && 0 <= result && result <= specWRLen(r)
+
+//@ func (*WireReader).Length
+//@   requires wfWR(r)
+//@   ensures result == specWRLen(r) && 0 <= result
+
+//@ func (*WireReader).Skip
+//@   requires wfWR(r)
+//@   modifies r.seg, r.pos
+//@   ensures wfWR(r)
+//@   ensures result == nil ==> specWRPos(r) == old(specWRPos(r))+n
+//@   ensures (result == nil) == (0 <= n && n <= specWRLen(r)-old(specWRPos(r)))
+//@   ensures [err_keeps_pos] result != nil ==> specWRPos(r) == old(specWRPos(r))
+//@   loop 1 invariant 0 <= n && 0 <= r.seg && r.seg <= len(r.wire) && 0 <= r.pos && old(r.seg) <= r.seg
+//@   loop 1 invariant r.accSz[r.seg]+r.pos == old(specWRPos(r))+n && old(specWRPos(r))+n <= specWRLen(r)
+//@   loop 1 decreases len(r.wire) - r.seg
+
+//@ func (*WireReader).ReadBuf
+//@   option relative-index
+//@   requires wfWR(r)
+//@   modifies r.seg, r.pos
+//@   ensures wfWR(r)
+//@   ensures (result1 == nil) == (0 <= l && l <= specWRLen(r)-old(specWRPos(r)))
+//@   ensures result1 == nil ==> len(result0) == l && specWRPos(r) == old(specWRPos(r))+l && old(r.seg) <= r.seg
+//@   ensures [bytes_done] result1 == nil ==> specWRDone(r, old(r.seg), r.seg, old(specWRPos(r)), result0)
+//@   ensures [bytes_cur] result1 == nil ==> specWRCur(r, r.seg, old(specWRPos(r)), old(specWRPos(r))+l, result0)
+//@   ensures [alias] result1 == nil ==> fresh(result0) || (r.seg < len(r.wire) && l <= r.pos && sameSlice(result0, r.wire[r.seg][r.pos-l:r.pos]))
+//@   ensures result1 != nil ==> result1 == io.ErrUnexpectedEOF && specWRPos(r) == old(specWRPos(r))
+//@   loop 1 invariant wfWR(r) && len(ret) == old(l) && fresh(ret) && 0 <= l && old(r.seg) <= r.seg
+//@   loop 1 invariant r.seg < len(r.wire) ==> r.accSz[r.seg+1] == r.accSz[r.seg]+len(r.wire[r.seg])
+//@   loop 1 invariant specWRPos(r)+l == old(specWRPos(r))+old(l) && old(specWRPos(r))+old(l) <= specWRLen(r)
+//@   loop 1 invariant old(specWRPos(r)) <= specWRPos(r) && l <= old(l) && (l > 0 ==> cur == specWRPos(r)-old(specWRPos(r)))
+//@   loop 1 invariant forallIn(old(r.seg), r.seg, func(s int) bool { return r.accSz[s+1] <= r.accSz[r.seg] })
+//@   loop 1 invariant specWRDone(r, old(r.seg), r.seg, old(specWRPos(r)), ret)
+//@   loop 1 invariant specWRCur(r, r.seg, old(specWRPos(r)), specWRPos(r), ret)
+
+//@ func NewWireReader
+//@   uses lemmaWireLenMono
+//@   ensures wfWR(result) && fresh(result) && result.seg == 0 && result.pos == 0 && sameSlice(result.wire, w)
+//@   ensures forallIn(0, len(w)+1, func(k int) bool { return result.accSz[k] == specWireLen(w, k) })
+//@   loop 1 invariant 0 <= i && i <= len(w) && len(accSz) == len(w)+1 && accSz[0] == 0 && fresh(accSz)
+//@   loop 1 invariant accSz[i] == specWireLen(w, i)
+//@   loop 1 invariant forallIn(0, i+1, func(j int) bool { return accSz[j] == specWireLen(w, j) })
+//@   loop 1 invariant forallIn(0, i, func(j int) bool { return accSz[j+1] == accSz[j]+len(w[j]) })
+
+// ---- ReadWire / Range: the result is a list of PIECES; piece k is segment base+k clipped to the logical interval
+// [p, q): wire[s][specWRLo(r,s,p) : specWRHi(r,s,q)]. Consecutive segments clipped to one interval concatenate to
+// exactly the logical bytes [p, q) when accSz[base] <= p < accSz[base+1] and q <= accSz[base+len(pieces)].
+
+func specWRLo(r *WireReader, s int, p int) int { return specWRMax(p-r.accSz[s], 0) }
+func specWRHi(r *WireReader, s int, q int) int { return specWRMin(q-r.accSz[s], len(r.wire[s])) }
+
+// specWRBase: first segment of the pieces collected so far by ReadWire's loop (the cursor is still inside the
+// last collected segment once the remaining length is 0).
+func specWRBase(seg int, m int, l int) int {
+	if l > 0 {
+		return seg - m
+	}
+	return seg + 1 - m
+}
+
+//@ func (*WireReader).ReadWire
+//@   requires wfWR(r)
+//@   modifies r.seg, r.pos
+//@   ensures wfWR(r)
+//@   ensures (result1 == nil) == (0 <= l && l <= specWRLen(r)-old(specWRPos(r)))
+//@   ensures result1 == nil ==> specWRPos(r) == old(specWRPos(r))+l && old(r.seg) <= r.seg && fresh(result0)
+//@   ensures result1 == nil && l == 0 ==> len(result0) == 0
+//@   ensures [first] result1 == nil && l > 0 ==> 1 <= len(result0) && old(r.seg) <= r.seg+1-len(result0) && r.seg < len(r.wire) && r.accSz[r.seg+1-len(result0)] <= old(specWRPos(r)) && old(specWRPos(r)) < r.accSz[r.seg+2-len(result0)]
+//@   ensures [pieces] result1 == nil && l > 0 ==> forallIn(0, len(result0), func(k int) bool { return sameSlice(result0[k], r.wire[r.seg+1-len(result0)+k][specWRLo(r, r.seg+1-len(result0)+k, old(specWRPos(r))):specWRHi(r, r.seg+1-len(result0)+k, old(specWRPos(r))+l)]) })
+//@   ensures result1 != nil ==> (result1 == io.EOF || result1 == io.ErrUnexpectedEOF) && specWRPos(r) == old(specWRPos(r))
+//@   loop 1 invariant wfWR(r) && fresh(ret) && 0 <= l && l <= old(l) && old(r.seg) <= r.seg
+//@   loop 1 invariant r.seg < len(r.wire) ==> r.accSz[r.seg+1] == r.accSz[r.seg]+len(r.wire[r.seg])
+//@   loop 1 invariant specWRPos(r)+l == old(specWRPos(r))+old(l) && old(specWRPos(r))+old(l) <= specWRLen(r)
+//@   loop 1 invariant l > 0 && len(ret) == 0 ==> specWRPos(r) == old(specWRPos(r)) && r.seg < len(r.wire) && r.pos < len(r.wire[r.seg])
+//@   loop 1 invariant l > 0 && len(ret) > 0 ==> r.pos == 0
+//@   loop 1 invariant l == 0 && old(l) > 0 ==> len(ret) > 0 && r.seg < len(r.wire)
+//@   loop 1 invariant old(l) == 0 ==> len(ret) == 0
+//@   loop 1 invariant l > 0 && len(ret) > 0 ==> old(r.seg) <= r.seg-len(ret) && r.accSz[r.seg-len(ret)] <= old(specWRPos(r)) && old(specWRPos(r)) < r.accSz[r.seg-len(ret)+1]
+//@   loop 1 invariant l == 0 && len(ret) > 0 ==> old(r.seg) <= r.seg+1-len(ret) && r.accSz[r.seg+1-len(ret)] <= old(specWRPos(r)) && old(specWRPos(r)) < r.accSz[r.seg+2-len(ret)]
+//@   loop 1 invariant l > 0 ==> forallIn(0, len(ret), func(k int) bool { return sameSlice(ret[k], r.wire[r.seg-len(ret)+k][specWRLo(r, r.seg-len(ret)+k, old(specWRPos(r))):specWRHi(r, r.seg-len(ret)+k, old(specWRPos(r))+old(l))]) })
+//@   loop 1 invariant l == 0 ==> forallIn(0, len(ret), func(k int) bool { return sameSlice(ret[k], r.wire[r.seg+1-len(ret)+k][specWRLo(r, r.seg+1-len(ret)+k, old(specWRPos(r))):specWRHi(r, r.seg+1-len(ret)+k, old(specWRPos(r))+old(l))]) })
+
+//@ func (*WireReader).Range
+//@   requires wfWR(r)
+//@   ensures [invalid] !(0 <= start && start <= end && end <= specWRLen(r)) ==> result == nil
+//@   ensures [empty] 0 <= start && start == end && end <= specWRLen(r) ==> len(result) == 1 && len(result[0]) == 0
+//@   ensures [first] 0 <= start && start < end && end <= specWRLen(r) ==> 1 <= len(result) && existsIn(0, len(r.wire), func(b int) bool { return r.accSz[b] <= start && start < r.accSz[b+1] && b+len(result) <= len(r.wire) && r.accSz[b+len(result)-1] < end && end <= r.accSz[b+len(result)] && forallIn(0, len(result), func(k int) bool { return sameSlice(result[k], r.wire[b+k][specWRLo(r, b+k, start):specWRHi(r, b+k, end)]) }) })
+//@   loop 1 invariant 0 <= i && i <= len(r.wire) && 0 <= start && start < end && end <= specWRLen(r)
+//@   loop 1 invariant r.accSz[i] > start ==> 0 <= startSeg && startSeg < i && r.accSz[startSeg] <= start && start < r.accSz[startSeg+1] && startPos == start-r.accSz[startSeg]
+//@   loop 1 invariant r.accSz[i] >= end ==> 0 <= endSeg && endSeg < i && r.accSz[endSeg] < end && end <= r.accSz[endSeg+1] && endPos == end-r.accSz[endSeg]
+//@   loop 1 invariant r.accSz[i] >= end ==> startSeg <= endSeg
+//@   loop 2 invariant startSeg+1 <= i && i <= endSeg && len(ret) == endSeg-startSeg+1 && fresh(ret)
+//@   loop 2 invariant sameSlice(ret[0], r.wire[startSeg][startPos:])
+//@   loop 2 invariant forallIn(startSeg+1, i, func(j int) bool { return sameSlice(ret[j-startSeg], r.wire[j]) })
+
+//@ func (*WireReader).Delegate
+//@   requires wfWR(r)
+//@   modifies r.seg, r.pos
+//@   ensures wfWR(r) && rdWf(result) && result != nil
+//@   ensures [valid] 0 <= l && l <= specWRLen(r)-old(specWRPos(r)) ==> specWRPos(r) == old(specWRPos(r))+l && rdLen(result)-rdPos(result) == l
+//@   ensures [invalid] !(0 <= l && l <= specWRLen(r)-old(specWRPos(r))) ==> specWRPos(r) == old(specWRPos(r)) && rdLen(result)-rdPos(result) == 0
+//@   loop 1 invariant 0 <= r.seg && r.seg < len(r.wire) && 0 <= r.pos && startSeg <= r.seg && 0 <= l
+//@   loop 1 invariant r.accSz[r.seg]+r.pos == old(specWRPos(r))+l && old(specWRPos(r))+l <= specWRLen(r)
+//@   loop 1 invariant r.accSz[r.seg+1] == r.accSz[r.seg]+len(r.wire[r.seg])
